@@ -228,4 +228,42 @@ theorem apply_comp_composite (X A B : ND K) {o : List ℕ} (hX : X.shape = o ++ 
   rw [gl i hi, gr i hi, gBX i hi, gAB [] (by simp)]
   exact apply_comp_row _ _ _
 
+/-! ## added after the model-mutant round: the dual block of `Transformation.apply` on an OBJECT
+(the unit-level theorems above say what the dual data should be multiplied by; this says that the
+model of `Transformation.apply` does it) -/
+
+/-- `T @ obj` for an object carrying dual data (`ConvexPolygon`): the dual block of the result is,
+row by row, the old functional times the inverse transpose of `T`'s matrix; composite shape kept -/
+theorem apply_obj_dual {X Y : Obj K} {A AinvT d : ND K} {o : List ℕ}
+    (hAi : AinvT.shape = [n, n])
+    (hinv : matAt AinvT n n [] = ((matAt A n n [])⁻¹)ᵀ)
+    (h : X.apply A AinvT .elementwise = .ok Y) (hd : X.dual = some d) (hds : d.shape = o ++ [n]) :
+    ∃ d', Y.dual = some d' ∧ d'.shape = d.shape ∧
+      ∀ i, Valid o i → rowAt d' n i = actRow ((matAt A n n [])⁻¹)ᵀ (rowAt d n i) := by
+  obtain ⟨c, hc, hcs, hcg⟩ := apply_composite_row d AinvT hds hAi
+  unfold Obj.apply at h
+  split at h
+  · cases h
+  · split at h
+    · cases h
+    · split at h
+      · cases h
+      · rename_i d' hd'
+        cases h
+        rw [hd] at hd'
+        simp only [hc, Except.map] at hd'
+        cases hd'
+        exact ⟨c, rfl, hcs, fun i hi => by rw [hcg i hi, hinv]⟩
+
+/-- hence incidence is kept at every index of a composite: the image functional evaluated on the
+image of any point equals the old functional on the old point -/
+theorem apply_obj_incidence {X Y : Obj K} {A AinvT d : ND K} {o : List ℕ}
+    (hAi : AinvT.shape = [n, n])
+    (hinv : matAt AinvT n n [] = ((matAt A n n [])⁻¹)ᵀ) (hdet : (matAt A n n []).det ≠ 0)
+    (h : X.apply A AinvT .elementwise = .ok Y) (hd : X.dual = some d) (hds : d.shape = o ++ [n]) :
+    ∃ d', Y.dual = some d' ∧
+      ∀ i, Valid o i → ∀ w : Fin n → K, rowAt d' n i ⬝ᵥ actRow (matAt A n n []) w = rowAt d n i ⬝ᵥ w := by
+  obtain ⟨d', hY, -, hg⟩ := apply_obj_dual hAi hinv h hd hds
+  exact ⟨d', hY, fun i hi w => by rw [hg i hi]; exact dual_incidence _ hdet _ _⟩
+
 end GT.C03
